@@ -328,7 +328,12 @@ func TestVerif_C16(t *testing.T) {
 	mk := func(o c16Opts, b, bt int) bScenario {
 		return bScenario{Name: o.name, Bound: b, BoundT: bt, Body: c16Body(o), Live: true, Racy: false}
 	}
-	runBScenarios(t, "C16", []bScenario{
+	w := newWorker(t, "C16")
+	defer w.finish()
+	if runMgrHistories(w, "C16", 4, 5) {
+		return
+	}
+	runBScenariosW(w, "C16", []bScenario{
 		mk(c16Opts{name: "one-session", n: 1, newServer: true}, 1, 2),
 		mk(c16Opts{name: "two-sessions-traffic", n: 2, newServer: true, traffic: true}, 1, 2),
 		mk(c16Opts{name: "new-server-not-up", n: 1, newServer: false, traffic: true}, 1, 2),
@@ -583,7 +588,12 @@ func TestVerif_C17(t *testing.T) {
 	mk := func(o c17Opts, b, bt int) bScenario {
 		return bScenario{Name: o.name, Bound: b, BoundT: bt, Body: c17Body(o), Live: true, Racy: o.racy}
 	}
-	runBScenarios(t, "C17", []bScenario{
+	w := newWorker(t, "C17")
+	defer w.finish()
+	if runMgrHistories(w, "C17", 4, 5) {
+		return
+	}
+	runBScenariosW(w, "C17", []bScenario{
 		mk(c17Opts{name: "server-session-lost", n: 1, lose: "server-session", traffic: true}, 1, 2),
 		mk(c17Opts{name: "two-pools-one-lost", n: 2, lose: "server-session"}, 1, 2),
 		mk(c17Opts{name: "server-down-then-back", n: 1, lose: "server-down", traffic: true}, 1, 2),
